@@ -18,13 +18,13 @@ import (
 )
 
 type c16case struct {
-	cookie   string // "\x00" = unset
-	cfgKey   string
-	cfgVal   string
-	proto    string
-	tls      string // none | provider | clientcert
+	cookie    string // "\x00" = unset
+	cfgKey    string
+	cfgVal    string
+	proto     string
+	tls       string // none | provider | clientcert
 	versioned bool
-	mux      string // "\x00" unset
+	mux       string // "\x00" unset
 }
 
 func (c c16case) String() string {
